@@ -44,10 +44,10 @@ func All() map[string]orch.PropertySpec {
 			Parts: []orch.Part{{Family: fam.Forgery{}, Monitors: []string{"C07"}}, {Family: fam.Xmlenc{}, Monitors: []string{"C07", "C01"}}, {Family: fam.Reconf{}, Monitors: []string{"C07"}}}},
 		"C11": {ID: "C11", Level: "model_checking", Assumptions: append([]string{"for a declared OAEP digest the sender uses the same hash for MGF1 (the only reading under which the exported digest identifiers are usable with this library)"}, trusted...),
 			Rule:  "cases are the round-trip sub-spaces of spec/Xmlenc.tla: every advertised data algorithm x {OAEP-MGF1P, OAEP 1.1} x {no digest, each exported digest identifier} and PKCS#1 v1.5 x inline/detached EncryptedKey x recipient certificate absent/matching x SP key supplied by key-store field (TLS store or plain store), by the setter, or both (same or different keys), each compared with its plaintext twin; plus DecryptBytes on random plaintexts of every length residue modulo 16, with and without trailing zero bytes; all replayed; non-trivial = every case",
-			Parts: []orch.Part{{Family: fam.Xmlenc{}, Monitors: []string{"C11"}}}},
+			Parts: []orch.Part{{Family: fam.Xmlenc{}, Monitors: []string{"C11"}}, {Family: fam.Concur{}, Monitors: []string{"C11"}}}},
 		"C12": {ID: "C12", Level: "model_checking", Assumptions: append([]string{"allocation is measured with runtime.MemStats.TotalAlloc around the call, serially; the bound is 16 x limit + 8 MiB (the unchanged tree allocates about 6 x limit on a bomb, an unbounded read at least the expansion)"}, trusted...),
 			Rule:  "cases are the combinations TLC enumerates from spec/Inflate.tla: six inbound entry points x raw / DEFLATE levels 1, 6, 9 x decompressed size natural / limit-1 / limit / limit+1 / 100 x / 1000 x the effective limit x configured limit unset (5 MiB) / 1 / 2 KiB / 64 KiB x accepting / rejecting document; documents are padded with trailing whitespace to the exact size; every compressed case within the limit is compared with its raw twin; non-trivial = every case",
-			Parts: []orch.Part{{Family: fam.Inflate{}, Monitors: []string{"C12"}}}},
+			Parts: []orch.Part{{Family: fam.Inflate{}, Monitors: []string{"C12"}}, {Family: fam.Concur{}, Monitors: []string{"C12"}}}},
 		"C08": {ID: "C08", Level: "model_checking", Assumptions: append([]string{"value strings, attribute multisets and serialisation layout are seeded samples, not enumerated; single AttributeStatement; distinct attribute names for the map view"}, trusted...),
 			Rule:  "structure enumerated by TLC from spec/Genuine.tla: signing placement (Response / every assertion / both) x 1..3 assertions x plain / encrypted x 6 canonicalisation algorithms x 4 digests x 8 signature algorithms (RSA, ECDSA) x KeyInfo present / absent x raw / DEFLATE x one- or two-certificate store; per case the IdP simulator draws NameID, attribute names, FriendlyName, NameFormat, 0..3 values per attribute, SessionIndex and instants over the XML character repertoire (markup characters, leading/trailing/inner whitespace incl. TAB/LF/CR, non-ASCII, astral, CDATA-end and comment fragments) and a layout (4 prefix styles, pretty-printing, comments, comment-split / CDATA text, attribute order, character references, quote style); every field is compared with the simulator's own data model; non-trivial = every case",
 			Parts: []orch.Part{{Family: fam.Genuine{}, Monitors: []string{"C08"}}}},
@@ -61,7 +61,7 @@ func All() map[string]orch.PropertySpec {
 		"C13": {ID: "C13", Level: "model_checking", Assumptions: append([]string{"configuration strings are seeded samples of five classes, not enumerated"}, trusted...),
 			Rule:   "cases TLC enumerates from spec/Outbound.tla: (keys) 15 key configurations (encryption / signing key by field, setter or both, four distinct key pairs) x 6 algorithm settings (unset, RSA-SHA1/256/384/512, ECDSA-SHA256 via setter) x 7 canonicaliser settings x 3 message kinds; (shape) every combination of the optional settings x string class; each message is serialised as the bindings do, re-parsed, and its signature analysed independently (SignedInfo canonicalised as declared, SignatureValue checked with crypto/rsa / crypto/ecdsa against all candidate keys, digest recomputed), plus reported and metadata certificates; non-trivial = every signed case",
 			Custom: []orch.CustomStep{orch.RaceStep},
-			Parts:  []orch.Part{{Family: fam.Outbound{}, Monitors: []string{"C13"}}, {Family: fam.SigningCtx{}, Monitors: []string{"C13"}}}},
+			Parts:  []orch.Part{{Family: fam.Outbound{}, Monitors: []string{"C13"}}, {Family: fam.SigningCtx{}, Monitors: []string{"C13"}}, {Family: fam.Concur{}, Monitors: []string{"C13"}}}},
 		"C15": {ID: "C15", Level: "model_checking", Assumptions: append([]string{"configuration strings are seeded samples of five classes, not enumerated"}, trusted...),
 			Rule:  "cases TLC enumerates from spec/Outbound.tla (shape and keys sub-spaces): ForceAuthn x IsPassive x NameIdFormat set/unset x RequestedAuthnContext nil / 0..2 contexts x SP issuer set or falling back x clock zone x string class x 3 message kinds; the output is parsed by expat and by encoding/xml (which must agree), children are checked against the SAML schema sequence in TLA+, every value is compared, and the element/attribute skeleton is compared with the one produced by benign strings; non-trivial = every case",
 			Parts: []orch.Part{{Family: fam.Outbound{}, Monitors: []string{"C15"}}, {Family: fam.ReconfOut{}, Monitors: []string{"C15"}}, {Family: fam.Protocol{}, Monitors: []string{"P_SPMSG"}}}},
@@ -70,17 +70,17 @@ func All() map[string]orch.PropertySpec {
 			Parts: []orch.Part{{Family: fam.Outbound{}, Monitors: []string{"C19"}}, {Family: fam.ReconfOut{}, Monitors: []string{"C19"}}}},
 		"C14": {ID: "C14", Level: "model_checking", Assumptions: append([]string{"relay-state strings are seeded samples of their class"}, trusted...),
 			Rule:  "cases TLC enumerates from spec/Bindings.tla (redirect): AuthnRequest via the Redirect binding, AuthnRequest via BuildAuthURLFromDocument, LogoutRequest x relay-state class (empty, plain, needs escaping, HTML, script, newline, non-ASCII, long, mixed) x IdP URL with / without existing query parameters x SignAuthnRequests x algorithm x 4 key configurations; the URL is analysed from its raw query string (split on & and = without decoding); SAMLRequest is percent-decoded, base64-decoded and raw-inflated and compared with the document; the signature is verified with bare crypto over the octets exactly as they appear; non-trivial = every case",
-			Parts: []orch.Part{{Family: fam.Bindings{}, Monitors: []string{"C14"}}}},
+			Parts: []orch.Part{{Family: fam.Bindings{}, Monitors: []string{"C14"}}, {Family: fam.Concur{}, Monitors: []string{"C14"}}}},
 		"C16": {ID: "C16", Level: "model_checking", Assumptions: append([]string{"relay-state strings are seeded samples of their class", "the page is tokenised by Python's html.parser; newline normalisation performed by browsers when a form is submitted is outside the library and not modelled"}, trusted...),
 			Rule:  "cases TLC enumerates from spec/Bindings.tla (post): BuildAuthBodyPost, BuildAuthBodyPostFromDocument, BuildLogoutBodyPostFromDocument, BuildLogoutResponseBodyPostFromDocument x relay-state class x IdP URL shape x signed / unsigned; the page is tokenised by html.parser: one form, action = endpoint, one message field decoding to exactly the document, RelayState iff given and equal, a submitting script, and the tag/attribute-name skeleton equal to the one produced with a benign relay state in the same run; non-trivial = every case",
-			Parts: []orch.Part{{Family: fam.Bindings{}, Monitors: []string{"C16"}}}},
+			Parts: []orch.Part{{Family: fam.Bindings{}, Monitors: []string{"C16"}}, {Family: fam.Concur{}, Monitors: []string{"C16"}}}},
 		"C18": {ID: "C18", Level: "model_checking", Assumptions: append([]string{"'unpredictable' is reduced to provenance: every free bit of every identifier is a bit of one 16-octet read from crypto/rand.Reader, and no read is used twice; the quality of the operating system's generator is assumed", "crypto/rand.Reader is wrapped by a recording reader for the duration of the run"}, trusted...),
 			Rule:  "TLC exhaustively checks the bit forcing and formatting of spec/IdGen.tla over the two affected octets; a history of 20 000 (quick) / 150 000 (thorough) message constructions across 3 kinds (+ the signing path), 4 SP instances and 8 goroutines is recorded with the octets drawn; the history is sorted and TLC checks on every line: identifier = '_' + canonical form of the draw with forced bits, legal xs:ID, exactly one matching draw, strictly greater than its predecessor (pairwise distinctness); distinct = distinct identifiers; non-trivial = every event",
 			Parts: []orch.Part{{Family: fam.IdGen{}, Monitors: []string{"C18"}}}},
 		"C17": {ID: "C17", Level: "model_checking", Assumptions: append([]string{"interleavings are controlled at the six observation points of SigningContext() (build tag verif); code between two points runs atomically with respect to the other controlled goroutines"}, trusted...),
 			Rule:   "(a) TLC explores every interleaving of N goroutines x K calls of the PlusCal algorithm spec/SigningCtx.tla (quick 2x2, thorough 3x1) with mutual-exclusion, race-freedom, configured-before-visible and termination properties, and emits every complete schedule; each schedule is forced through the real SigningContext() with blocking gates while the goroutines run real signing operations (SigningContext, signed AuthnRequest / LogoutRequest / LogoutResponse); every result is checked against what the call returns alone (signature analysed independently); the observed event sequence is validated step by step against the algorithm by TLC; (b) every operation history of length <= 3 (quick) / 4 (thorough) over 10 public operations plus mutation of the previous result (spec/SpLife.tla) is replayed on one SP: configuration fingerprint before/after each call, result compared with the same call on a fresh SP; (c) a race-detector build runs sleep-slot-steered first-use schedules and an ungated mix of all public operations; distinct = distinct schedules / histories; non-trivial = every one",
 			Custom: []orch.CustomStep{orch.RaceStep},
-			Parts:  []orch.Part{{Family: fam.SigningCtx{}, Monitors: []string{"C17"}}, {Family: fam.SpLife{}, Monitors: []string{"C17"}}, {Family: fam.Reconf{}, Monitors: []string{"C17"}}, {Family: fam.ReconfOut{}, Monitors: []string{"C17"}}}},
+			Parts:  []orch.Part{{Family: fam.SigningCtx{}, Monitors: []string{"C17"}}, {Family: fam.SpLife{}, Monitors: []string{"C17"}}, {Family: fam.Reconf{}, Monitors: []string{"C17"}}, {Family: fam.ReconfOut{}, Monitors: []string{"C17"}}, {Family: fam.Concur{}, Monitors: []string{"C17"}}}},
 	}
 }
 
